@@ -2,11 +2,13 @@
 // PreparedMedium / PreparedLarge (C07: the padding arithmetic of every formatter lays the text out around exactly this
 // number).  Contract: width() == the number of digits write() emits, read off the prepared structure
 // (lib/codecs_fmt_stubs.rs): for PreparedLarge the top chunk plus (digits_per_word * CHUNK_LEN) << level for the STORED
-// level of every big chunk.  Trusted: the struct mirrors and radix::radix_info (lib/codecs_fmt_stubs.rs).
+// level of every big chunk.  Trusted: the struct mirrors and radix::radix_info (lib/codecs_fmt_stubs.rs; lib/div_word_stubs.rs only supplies
+// the type of a RadixInfo field).
 #![allow(unused_imports, unused_variables, dead_code, non_snake_case, unused_mut, unused_parens, unused_braces)]
 use vstd::prelude::*;
 verus! {
 //@@ INCLUDE lib/prelude.rs
+//@@ INCLUDE lib/div_word_stubs.rs
 //@@ INCLUDE lib/codecs_fmt_stubs.rs
 //@@ INCLUDE lib/codecs_fmt_lemmas.rs
 //@@ FN integer/fmt_npt/word_width.rs
